@@ -332,7 +332,7 @@ int main(void) {
         printf("\n");
       }
       iwpool_destroy(pool); free(d); free(p);
-    } else if (!strcmp(cmd, "xstr")) {                 // ops: c<hex> u<hex> s<n> p<n> i<pos>:<hex>
+    } else if (!strcmp(cmd, "xstr")) {                 // ops: c<hex> u<hex> s<n> p<n> i<pos>:<hex> k (= continue with a clone)
       struct iwxstr *x = iwxstr_create(atoi(a[0]));
       errno = pre;
       poison_stack(g_fill);
@@ -343,6 +343,10 @@ int main(void) {
           iwrc rc = op == 'c' ? iwxstr_cat(x, e, l) : iwxstr_unshift(x, e, l);
           if (rc) printf("rc%" PRIu64 " ", (uint64_t) rc);
           zfree(e, l); free(b);
+        } else if (op == 'k') {                          // the clone replaces the original
+          struct iwxstr *y = iwxstr_clone(x);
+          if (!y) printf("noclone ");
+          else { iwxstr_destroy(x); x = y; }
         } else if (op == 's') iwxstr_shift(x, strtoul(a[i] + 1, 0, 10));
         else if (op == 'p') iwxstr_pop(x, strtoul(a[i] + 1, 0, 10));
         else if (op == 'i') {
@@ -409,6 +413,54 @@ int main(void) {
       else printf("W");
       printf(" %ld %d\n", cnt, deep);
       iwpool_destroy(pool); free(b);
+    } else if ((!strcmp(cmd, "jdoc") || !strcmp(cmd, "jsdoc")) && na == 1) {   // jbn_from_json / jbn_from_js as callers see them
+      uint8_t *b; unhex(a[0], &b);
+      struct iwpool *pool = iwpool_create(0);
+      struct jbl_node *node = (struct jbl_node*) fillptr();
+      errno = pre;
+      poison_stack(g_fill);
+      iwrc rc = cmd[1] == 's' ? jbn_from_js((char*) b, &node, pool) : jbn_from_json((char*) b, &node, pool);
+      long cnt = 0; int deep = -1;
+      if (node && node != (struct jbl_node*) fillptr()) skel(node, 0, &cnt, &deep);
+      if (rc) printf("%s", rc == JBL_ERROR_PARSE_JSON ? "Ejson" : rc == JBL_ERROR_MAX_NESTING_LEVEL_EXCEEDED ? "Enest"
+                           : rc == JBL_ERROR_PARSE_INVALID_CODEPOINT ? "Ecp" : rc == JBL_ERROR_PARSE_UNQUOTED_STRING ? "Eunq" : "E?");
+      else printf("ok");
+      printf(" %ld %d\n", cnt, deep);
+      iwpool_destroy(pool); free(b);
+    } else if (!strcmp(cmd, "jbl") && na == 1) {        // jbl_from_json: text -> binary document -> text
+      uint8_t *b; unhex(a[0], &b);
+      struct jbl *jbl = 0;
+      errno = pre;
+      poison_stack(g_fill);
+      iwrc rc = jbl_from_json(&jbl, (char*) b);
+      printf("%" PRIu64 " ", (uint64_t) rc);
+      if (!rc && jbl) {
+        struct iwxstr *x = iwxstr_create_empty();
+        iwrc rc2 = jbl_as_json(jbl, jbl_xstr_json_printer, x, 0);
+        if (rc2) printf("print-rc=%" PRIu64, (uint64_t) rc2); else puthex(iwxstr_ptr(x), iwxstr_size(x));
+        iwxstr_destroy(x);
+      } else printf("~");
+      printf("\n");
+      if (jbl) jbl_destroy(&jbl);
+      free(b);
+    } else if ((!strcmp(cmd, "jblpatch") || !strcmp(cmd, "jblmerge")) && na == 2) {   // binary document, patch given as text
+      uint8_t *d, *p; unhex(a[0], &d); unhex(a[1], &p);
+      struct jbl *jbl = 0;
+      errno = pre;
+      poison_stack(g_fill);
+      iwrc rc = jbl_from_json(&jbl, (char*) d);
+      if (rc || !jbl) printf("parse-rc=%" PRIu64 "\n", (uint64_t) rc);
+      else {
+        rc = cmd[3] == 'p' ? jbl_patch_from_json(jbl, (char*) p) : jbl_merge_patch(jbl, (char*) p);
+        printf("%" PRIu64 " ", (uint64_t) rc);
+        struct iwxstr *x = iwxstr_create_empty();
+        iwrc rc2 = jbl_as_json(jbl, jbl_xstr_json_printer, x, 0);
+        if (rc2) printf("print-rc=%" PRIu64, (uint64_t) rc2); else puthex(iwxstr_ptr(x), iwxstr_size(x));
+        iwxstr_destroy(x);
+        printf("\n");
+      }
+      if (jbl) jbl_destroy(&jbl);
+      free(d); free(p);
     } else if (!strcmp(cmd, "sde") && na == 1) {        // iwstrtod: where `end` points to
       uint8_t *b; unhex(a[0], &b);
       char *end = (char*) fillptr();
